@@ -7,6 +7,8 @@ import Mathlib.Tactic.Ring
 import Mathlib.Algebra.Order.Ring.Rat
 import Mathlib.Algebra.Order.Field.Rat
 import Mathlib.Algebra.Order.Field.Basic
+import Mathlib.Data.List.Nodup
+import CTM.Lemmas.Output
 
 namespace CTM.Output
 
@@ -95,5 +97,24 @@ theorem rhe_nearest (q : Rat) (n : Int) :
       · have := neg_abs_le ((n : Rat) - q); have := le_abs_self ((n : Rat) - q)
         have := neg_le_abs ((n : Rat) - q); linarith
       · have := le_abs_self ((n : Rat) - q); have := neg_le_abs ((n : Rat) - q); linarith
+
+/-! ### `re_order_blob` returns a permutation when the ids are distinct -/
+
+theorem reorder_perm (rs rs' : List Record) (order : List StrId)
+    (hids : (rs.map (·.cellId)).Nodup) (hord : order.Nodup)
+    (hsub : ∀ r ∈ rs, r.cellId ∈ order)
+    (h : reorder rs order = .ok rs') (hmap : rs'.map (·.cellId) = order)
+    (hmem : ∀ r ∈ rs', r ∈ rs) : rs'.Perm rs := by
+  have d1 : rs'.Nodup := List.Nodup.of_map (·.cellId) (by rw [hmap]; exact hord)
+  have d2 : rs.Nodup := List.Nodup.of_map (·.cellId) hids
+  rw [List.perm_ext_iff_of_nodup d1 d2]
+  intro r
+  constructor
+  · exact hmem r
+  · intro hr
+    have : r.cellId ∈ rs'.map (·.cellId) := by rw [hmap]; exact hsub r hr
+    obtain ⟨r', hr', he⟩ := List.mem_map.mp this
+    have : r' = r := List.inj_on_of_nodup_map hids (hmem r' hr') hr he
+    rw [← this]; exact hr'
 
 end CTM.Output
